@@ -525,7 +525,7 @@ type c03SetInput struct {
 
 func c03SetSuite(r *Result, rng *rand.Rand, tier string) {
 	perTy := 6
-	if tier != "quick" {
+	if tier == "thorough" {
 		perTy = 14
 	}
 	kinds := c03AllKinds()
